@@ -205,6 +205,9 @@ UNITS = [
 from contracts.adapt_arms import arms_units  # noqa: E402
 UNITS = UNITS + [u for u in arms_units("C01") if u.label in ("Tuple/Set", "Enum", "registered-type")]  # their serialise-side obligations
 
+from contracts.core_units import dump_unit  # noqa: E402
+UNITS.append(dump_unit("C01"))
+
 LEMMAS = [Lemma("C01/lemma:plain-scalar-agreement", scalar_lemmas, replayer="replayers.c01:replay_scalar",
                 trusted=["PyYAML resolves a plain scalar by the first matching (tag, regexp) of yaml_implicit_resolvers[first char] + [None] (Resolver.resolve)",
                          "SafeDumper emits a str without quotes only if it resolves to str for the dumper's own resolver table",
